@@ -14,6 +14,13 @@ open GV GV.Ser
 
 variable {α β : Type}
 
+theorem bind_ok (a : α) (r : Bytes) (n : Nat) (f : α → Bytes → Outcome β) :
+    GV.Dec.bind (.ok a r n) f = (f a r).addAlloc n := rfl
+theorem bind_err (e : SerErr) (n : Nat) (f : α → Bytes → Outcome β) :
+    GV.Dec.bind (.err e n : Outcome α) f = .err e n := rfl
+theorem bind_panic (s : Site) (n : Nat) (f : α → Bytes → Outcome β) :
+    GV.Dec.bind (.panic s n : Outcome α) f = .panic s n := rfl
+
 /-- the bound on one outcome, for an input of length `len` -/
 def OBnd (c k e len : Nat) : Outcome α → Prop
   | .ok _ r n => r.length ≤ len ∧ n ≤ c * (len - r.length) + k
